@@ -173,7 +173,7 @@ def check_union_models(ctx):
     from vf.props import union_models as U
 
     rng = random.Random(ctx.seed)
-    for i, obj in enumerate(U.instances(rng)):
+    for i, obj in enumerate(U.instances(rng) + U.shape_instances()):
         for writer in bc.WRITERS:
             for handler in bc.HANDLERS:
                 ctx.case("union-models", repr(obj), writer, handler, nontrivial=True)
@@ -181,9 +181,9 @@ def check_union_models(ctx):
                 ctx.feature("hand:union-of-classes")
                 w = {"fn": "union-models", "index": i, "writer": writer, "handler": handler}
                 try:
-                    xml = XmlSerializer(context=XmlContext(), writer=bc.writer_cls(writer), config=SerializerConfig(indent=rng.choice([None, "  "]))).render(obj, ns_map=rng.choice([None, {None: U.NS}, {"h": U.NS}]))
+                    xml = XmlSerializer(context=XmlContext(), writer=bc.writer_cls(writer), config=SerializerConfig(indent=rng.choice([None, "  "]))).render(obj, ns_map=rng.choice([None, {None: U.NS}, {"h": U.NS}]) if isinstance(obj, U.Holder) else None)
                     pc = ParserConfig(fail_on_unknown_properties=True, fail_on_unknown_attributes=True, fail_on_converter_warnings=True)
-                    back = XmlParser(context=XmlContext(), handler=bc.handler_cls(handler), config=pc).from_string(xml, U.Holder)
+                    back = XmlParser(context=XmlContext(), handler=bc.handler_cls(handler), config=pc).from_string(xml, type(obj))
                 except Exception as e:  # noqa: BLE001
                     ctx.violation(f"union-models/raises/{writer}/{handler}/{bc.short_exc(e)}", f"{type(e).__name__}: {e}\n{obj!r}\n{locals().get('xml', '')[:1200]}", w)
                     continue
